@@ -1,5 +1,10 @@
 package node
 
+import (
+	"os"
+	"path/filepath"
+)
+
 // ReplicaReport is one divergence (or halt) found when the recorded block stream of a chain was
 // re-executed by independent instances.
 type ReplicaReport struct {
@@ -38,4 +43,58 @@ func (c *Chain) CheckReplicas(crashSeed int64, env []string) (reports []ReplicaR
 		check("subprocess_env", d, p, halt)
 	}
 	return reports, len(od), nil
+}
+
+// CheckLeftoverTemp is the "stale temp files" disk fault: the stream is executed by a sub-process whose
+// temp directory is a fresh private directory; whatever that process left behind there is then
+// damaged (the second half of every regular file is overwritten, as by a torn write), and a second
+// sub-process executes the stream with the same temp directory. Its digests must equal the original's.
+// corrupted is the number of files that were left behind and damaged.
+func (c *Chain) CheckLeftoverTemp(env []string) (reports []ReplicaReport, corrupted int, err error) {
+	if c.Halted != "" || c.InBlock {
+		return nil, 0, nil
+	}
+	dir, err := os.MkdirTemp("/var/tmp", "tsim-tmpdir-*")
+	if err != nil {
+		return nil, 0, err
+	}
+	defer os.RemoveAll(dir)
+	s := c.Stream()
+	od, op := c.Digests()
+	env = append(append([]string(nil), env...), "TMPDIR="+dir)
+	if _, _, _, e := SubprocessReplica(s, env, "/"); e != nil {
+		return nil, 0, e
+	}
+	filepath.Walk(dir, func(path string, info os.FileInfo, err error) error {
+		if err != nil || !info.Mode().IsRegular() || info.Size() < 2 {
+			return nil
+		}
+		f, e := os.OpenFile(path, os.O_WRONLY, 0)
+		if e != nil {
+			return nil
+		}
+		defer f.Close()
+		junk := make([]byte, info.Size()-info.Size()/2)
+		for i := range junk {
+			junk[i] = byte(i*31 + 7)
+		}
+		if _, e := f.WriteAt(junk, info.Size()/2); e == nil {
+			corrupted++
+			if os.Getenv("TSIM_DEBUG") != "" {
+				println("left-over temp file", path, info.Size())
+			}
+		}
+		return nil
+	})
+	d, p, halt, e := SubprocessReplica(s, env, "/")
+	if e != nil {
+		return nil, corrupted, e
+	}
+	if halt != "" {
+		return []ReplicaReport{{"subprocess_leftover_tmp", "halt", halt}}, corrupted, nil
+	}
+	for _, dv := range CompareDigestsAll(od, d, op, p) {
+		reports = append(reports, ReplicaReport{"subprocess_leftover_tmp", dv.Class, dv.Detail})
+	}
+	return reports, corrupted, nil
 }
